@@ -19,6 +19,13 @@ def props_list():
 def run_property(prop, tier, seed):
     P = importlib.import_module("vlib.props." + prop.lower())
     rep = core.Report(prop, tier, seed)
+    for f in os.listdir(os.path.join(core.VERIF, 'replays')) if os.path.isdir(os.path.join(core.VERIF, 'replays')) else []:
+        if f.startswith(prop + '-'):
+            os.remove(os.path.join(core.VERIF, 'replays', f))
+    try:
+        os.remove(os.path.join(core.WORK, prop + '.divergences.txt'))
+    except OSError:
+        pass
     rng = core.SplitMix64(seed)
     known = core.load_known()
     lk = core.lock()
@@ -63,7 +70,7 @@ def run_property(prop, tier, seed):
         t2 = time.time()
         model = core.run_model(cases, prop)
         log("in-process: %d cases, harness %.0fs, model %.0fs" % (len(cases), t2 - t1, time.time() - t2))
-        st = core.judge(rep, cases, impl, model, known, getattr(P, "nontrivial", None))
+        st = core.judge(rep, cases, impl, model, known, getattr(P, "nontrivial", None), spec_mode=getattr(P, "SPEC_MODE", None))
         if hasattr(P, "process"):
             t3 = time.time()
             for label, pcases, pimpl in P.process(tier_eff, rng, cicada):
